@@ -30,8 +30,10 @@ def swap_axes(order_src, order_dst, pattern):
 
 def layout_spec(R, order, name):
     return {'__class__': L + '::Layout', '_name': ('const', name), '_ndims': ('const', R), '_dims_order': ('const', tuple(order)),
+            '_inv_dims_order': ('const', tuple(list(order).index(d) for d in range(R))),
             '_shape': 'tuple%dint' % R, '_max_shape': 'iarr1:%d' % R, '_nprocs': 'list%dint' % R,
-            '_mpi_lengths': ('list', ['iarr1'] * R), '_mpi_starts': ('list', ['iarr1'] * R), '_size': 'int'}
+            '_mpi_lengths': ('list', ['iarr1'] * R), '_mpi_starts': ('list', ['iarr1'] * R), '_size': 'int',
+            '_starts': 'tuple%dint' % R}
 
 
 def extract_contract(R, order_src, order_dst, pattern):
@@ -160,6 +162,180 @@ def rearrange_contract(R, order_src, order_dst, pattern):
         loops={'for r in range(mpi_size)': dict(inv=[moved('rr', 'r')], case_split={'rr': ['r - 1']})})
 
 
+import re
+
+
+def _sub(text, mapping):
+    for a, b in mapping.items():
+        text = re.sub(r'\b%s\b' % re.escape(a), b, text)
+    return text
+
+
+def field_at(order, starts, idx):
+    """gfield(...) at the global index of local position idx of a block whose axis k holds dimension order[k] and starts at starts[k]."""
+    g = [None] * len(order)
+    for k in range(len(order)):
+        g[order[k]] = '%s + %s' % (starts[k], idx[k]) if starts[k] != '0' else idx[k]
+    return 'gfield(%s)' % ', '.join(g)
+
+
+def peer_form(R, order_src, order_dst, pattern, r, target, comm='comm'):
+    """What member r of the communicator puts into its send buffer (blocks b = 0..p-1, element i of the padded, swapped block):
+    the global field at the corresponding global index.  Used twice with the same text: as the GUARANTEE proved of
+    _extract_from_source (r = my rank, target = tobuffer) and as the ASSUMPTION about the other members in _transpose
+    (r quantified, target = peer_send(comm, r))."""
+    g = geometry(R, order_src, order_dst, pattern)
+    a0, a1, a1p, S, lens = g['a0'], g['a1'], g['a1p'], g['S'], g['lens']
+    LENs, STs = 'layout_source._mpi_lengths[%d]' % a0, 'layout_source._mpi_starts[%d]' % a0
+    LENd, STd = 'layout_dest._mpi_lengths[%d]' % a0, 'layout_dest._mpi_starts[%d]' % a0
+    P = 'comm_size(%s)' % comm
+    SIZE = 'prodof([%s])' % ', '.join(lens)
+    iv = ['i%d' % k for k in range(R)]
+    ext = list(S)
+    if a0 != 0:
+        ext[0], ext[a0] = ext[a0], ext[0]
+    bounds = []
+    for k in range(R):
+        hi = ('%s[%s]' % (LENs, r)) if k == 0 else (('%s[b]' % LENd) if k == a1p else ext[k])
+        bounds += ['0', hi]
+    src_idx = list(iv)
+    if a0 != 0:
+        src_idx[0], src_idx[a0] = src_idx[a0], src_idx[0]
+    src_idx[a1] = '%s[b] + %s' % (STd, src_idx[a1])
+    starts = ['layout_source._starts[%d]' % k for k in range(R)]
+    starts[a0] = '%s[%s]' % (STs, r)
+    starts[a1] = '0'
+    body = '%s[b * %s + flatidx([%s], [%s])] == %s' % (target, SIZE, ', '.join(lens), ', '.join(iv), field_at(order_src, starts, src_idx))
+    return 'forall(0, %s, lambda b: forall(%s, lambda %s: %s))' % (P, ', '.join(bounds), ', '.join(iv), body)
+
+
+def extract_field_contract(R, order_src, order_dst, pattern):
+    """_extract_from_source, field form (the guarantee half of the assume/guarantee argument for the Alltoall)."""
+    c = extract_contract(R, order_src, order_dst, pattern)
+    g = geometry(R, order_src, order_dst, pattern)
+    a0, a1, S = g['a0'], g['a1'], g['S']
+    iv = ['i%d' % k for k in range(R)]
+    bounds = []
+    for k in range(R):
+        bounds += ['0', S[k]]
+    starts = ['layout_source._starts[%d]' % k for k in range(R)]
+    me = 'comm_rank(comm)'
+    c['requires'] = c['requires'] + [
+        'forall(%s, lambda %s: source[%s] == %s)' % (', '.join(bounds), ', '.join(iv), ', '.join(iv), field_at(order_src, starts, iv)),
+        'len(layout_dest._mpi_lengths[%d]) == comm_size(comm) and len(layout_source._mpi_lengths[%d]) == comm_size(comm) '
+        'and len(layout_source._mpi_starts[%d]) == comm_size(comm)' % (a0, a0, a0),
+        'layout_source._starts[%d] == layout_source._mpi_starts[%d][%s]' % (a0, a0, me),
+        '%s == layout_source._mpi_lengths[%d][%s]' % (S[a0], a0, me),
+        'layout_source._starts[%d] == 0' % a1]
+    c['ensures'] = c['ensures'] + [peer_form(R, order_src, order_dst, pattern, me, 'tobuffer')]
+    return c
+
+
+def transpose_contract(R, order_src, order_dst, pattern, intact):
+    """LayoutHandler._transpose / _transpose_source_intact for a pair whose swapped position is distributed: if my block and
+    every other member's block hold the global field in the source layout, my destination block holds it in the
+    destination layout."""
+    g = geometry(R, order_src, order_dst, pattern)
+    a0, a1, a2, S, D, lens = g['a0'], g['a1'], g['a2'], g['S'], g['D'], g['lens']
+    comm = 'self._subcomms[%d]' % a0
+    me = 'comm_rank(%s)' % comm
+    P = 'comm_size(%s)' % comm
+    ex = extract_contract(R, order_src, order_dst, pattern)
+    re_ = rearrange_contract(R, order_src, order_dst, pattern)
+    rcv = 'buf' if intact else 'source'
+    req = [_sub(c, {'tobuffer': 'dest', 'comm': comm}) for c in ex['requires'] if 'shape(source)' not in c]
+    req += ['%s >= 0' % S[k] for k in range(R)]
+    req += [_sub(c, {'data': 'dest', 'buf': rcv, 'comm': comm}) for c in re_['requires']]
+    LENs, STs = 'layout_source._mpi_lengths[%d]' % a0, 'layout_source._mpi_starts[%d]' % a0
+    LENd, STd = 'layout_dest._mpi_lengths[%d]' % a0, 'layout_dest._mpi_starts[%d]' % a0
+    req += ['layout_source._size == prodof([%s])' % ', '.join(S), 'layout_source._size <= len(source)',
+            'len(%s) == %s' % (LENd, P),
+            # the handler's layouts describe the same process: my coordinate along the swapped direction is my rank in its
+            # sub-communicator, every other position is distributed identically in both layouts (C02 / C20)
+            'layout_source._starts[%d] == %s[%s] and %s == %s[%s]' % (a0, STs, me, S[a0], LENs, me),
+            'layout_dest._starts[%d] == %s[%s] and %s == %s[%s]' % (a0, STd, me, D[a0], LENd, me),
+            'layout_source._starts[%d] == 0 and layout_dest._starts[%d] == 0' % (a1, a2),
+            '%s[%s - 1] + %s[%s - 1] == %s' % (STd, P, LENd, P, S[a1])]
+    for k in range(R):
+        if k not in (a0, a1):
+            k2 = list(order_dst).index(order_src[k])
+            req.append('layout_source._starts[%d] == layout_dest._starts[%d]' % (k, k2))
+    iv = ['i%d' % k for k in range(R)]
+    bounds = []
+    for k in range(R):
+        bounds += ['0', S[k]]
+    sstarts = ['layout_source._starts[%d]' % k for k in range(R)]
+    req.append('forall(%s, lambda %s: source[flatidx([%s], [%s])] == %s)' % (
+        ', '.join(bounds), ', '.join(iv), ', '.join(S), ', '.join(iv), field_at(order_src, sstarts, iv)))
+    # ASSUMPTION (assume/guarantee over the members of the sub-communicator): every member's send buffer has the form that
+    # _extract_from_source is proved to produce from a block holding the field
+    assume = 'forall(0, %s, lambda r: %s)' % (P, peer_form(R, order_src, order_dst, pattern, 'r', 'peer_send(%s, r)' % comm, comm))
+    req.append(assume)
+    jv = ['j%d' % k for k in range(R)]
+    dstarts = ['layout_dest._starts[%d]' % k for k in range(R)]
+    dstarts[a2] = '0'
+    dbounds = []
+    for k in range(R):
+        dbounds += ['0', D[k]]
+    ens = ('forall(0, {P}, lambda r: forall({db}, lambda {j}: implies({st}[r] <= {ja} and {ja} < {st}[r] + {ln}[r], '
+           'dest[flatidx([{D}], [{j}])] == {f})))').format(P=P, db=', '.join(dbounds), j=', '.join(jv), st=STs, ln=LENs, ja=jv[a2],
+                                                         D=', '.join(D), f=field_at(order_dst, dstarts, jv))
+    params = {'self': {'__class__': L + '::LayoutHandler', '_nprocsList': ('list', ['int'] * len(pattern)),
+                       '_subcomms': ('list', ['comm'] * len(pattern))},
+              'source': 'arr1', 'dest': 'arr1', 'layout_source': layout_spec(R, order_src, 'src'),
+              'layout_dest': layout_spec(R, order_dst, 'dst')}
+    if intact:
+        params['buf'] = 'arr1'
+    for k, ch in enumerate(pattern):
+        req.append('self._nprocsList[%d] %s' % (k, '> 1' if ch == '2' else '== 1'))
+    return dict(params=params, requires=req, ensures=[ens], modifies=['dest', rcv])
+
+
+def local_contract(R, order_src, order_dst, pattern, intact):
+    """The pair differs only at positions that are not distributed: an in-process np.transpose."""
+    S = ['layout_source._shape[%d]' % k for k in range(R)]
+    D = ['layout_dest._shape[%d]' % k for k in range(R)]
+    T = [list(order_src).index(d) for d in order_dst]
+    jv = ['j%d' % k for k in range(R)]
+    iv = [None] * R
+    for k in range(R):
+        iv[T[k]] = jv[k]
+    dbounds = []
+    for k in range(R):
+        dbounds += ['0', D[k]]
+    req = ['layout_source._size == prodof([%s]) and layout_source._size <= len(source)' % ', '.join(S),
+           'layout_dest._size == prodof([%s]) and layout_dest._size <= len(dest)' % ', '.join(D)]
+    req += ['%s >= 0 and %s == %s' % (D[k], D[k], S[T[k]]) for k in range(R)]
+    for k, ch in enumerate(pattern):
+        req.append('self._nprocsList[%d] %s' % (k, '> 1' if ch == '2' else '== 1'))
+    ens = ['forall(%s, lambda %s: dest[flatidx([%s], [%s])] == old(source)[flatidx([%s], [%s])])' % (
+        ', '.join(dbounds), ', '.join(jv), ', '.join(D), ', '.join(jv), ', '.join(S), ', '.join(iv))]
+    params = {'self': {'__class__': L + '::LayoutHandler', '_nprocsList': ('list', ['int'] * len(pattern)),
+                       '_subcomms': ('list', ['comm'] * len(pattern))},
+              'source': 'arr1', 'dest': 'arr1', 'layout_source': layout_spec(R, order_src, 'src'),
+              'layout_dest': layout_spec(R, order_dst, 'dst')}
+    if intact:
+        params['buf'] = 'arr1'
+    return dict(params=params, requires=req, ensures=ens, modifies=['dest'])
+
+
+def compatible_pairs(R, npat, rng, count):
+    """Random structural cases: two orderings of rank R that differ at exactly one distributed position (pattern drawn too)."""
+    import itertools
+    perms = list(itertools.permutations(range(R)))
+    out = []
+    tries = 0
+    while len(out) < count and tries < 2000:
+        tries += 1
+        oa = list(perms[int(rng.integers(len(perms)))])
+        ob = list(perms[int(rng.integers(len(perms)))])
+        pat = ''.join('2' if rng.random() < 0.75 else '1' for _ in range(npat))
+        diff = [k for k in range(npat) if pat[k] == '2' and oa[k] != ob[k]]
+        if len(diff) == 1 and (oa, ob, pat) not in out:
+            out.append((oa, ob, pat))
+    return out
+
+
 def cases(tier, rng=None):
     out = []
     std = {'flux_surface': (0, 3, 1, 2), 'v_parallel': (0, 2, 1, 3), 'poloidal': (3, 2, 1, 0)}
@@ -167,16 +343,46 @@ def cases(tier, rng=None):
              ('poloidal', 'v_parallel', '22'), ('poloidal', 'v_parallel', '21'),
              # leading process count 1: the swapped axis is position 0 (axis[1] == 0), the case of the repaired defect
              ('poloidal', 'flux_surface', '12'), ('flux_surface', 'poloidal', '12')]
+    dist = [(list(std[a]), list(std[b]), pat, '%s->%s' % (a, b)) for (a, b, pat) in pairs]
+    # orderings beyond the production layouts: ranks 2 and 3, and pairs whose remaining positions are permuted by a 3-cycle
+    # (np.transpose order != its inverse)
+    general = [([0, 1, 2], [1, 2, 0], '2', None), ([0, 1, 2], [0, 2, 1], '22', None), ([0, 1], [1, 0], '2', None),
+               ([0, 1, 2, 3], [2, 1, 3, 0], '22', None), ([1, 2, 0], [1, 0, 2], '12', None)]
     if tier == 'quick':
-        keep = [0, 5]
+        keep = [dist[0], dist[5], general[0]]
         if rng is not None:
-            keep.append(int(rng.choice([1, 2, 3, 4, 6])))
-        pairs = [pairs[k] for k in keep]
-    for (a, b, pat) in pairs:
-        C = {L + '::LayoutHandler._extract_from_source': extract_contract(4, list(std[a]), list(std[b]), pat)}
-        out.append(dict(label='_extract_from_source %s->%s grid %s' % (a, b, pat), struct=None,
+            keep.append(dist[int(rng.choice([1, 2, 3, 4, 6]))])
+        dist = keep
+    else:
+        dist = dist + general
+        if rng is not None:
+            for R in (2, 3, 4):
+                for npat in (1, 2):
+                    if npat < R or R == 2:
+                        dist += [(oa, ob, pat, None) for (oa, ob, pat) in compatible_pairs(R, min(npat, R), rng, 2)]
+    for (oa, ob, pat, nm) in dist:
+        R = len(oa)
+        nm = nm or '%s->%s' % (''.join(map(str, oa)), ''.join(map(str, ob)))
+        C = {L + '::LayoutHandler._extract_from_source': extract_field_contract(R, oa, ob, pat)}
+        out.append(dict(label='_extract_from_source %s grid %s' % (nm, pat), struct=None,
                         key=L + '::LayoutHandler._extract_from_source', contracts=C))
-        C2 = {L + '::LayoutHandler._rearrange_from_buffer': rearrange_contract(4, list(std[a]), list(std[b]), pat)}
-        out.append(dict(label='_rearrange_from_buffer %s->%s grid %s' % (a, b, pat), struct=None,
+        C2 = {L + '::LayoutHandler._rearrange_from_buffer': rearrange_contract(R, oa, ob, pat)}
+        out.append(dict(label='_rearrange_from_buffer %s grid %s' % (nm, pat), struct=None,
                         key=L + '::LayoutHandler._rearrange_from_buffer', contracts=C2))
+        for intact in (False, True):
+            fn = '_transpose_source_intact' if intact else '_transpose'
+            C3 = dict(C)
+            C3.update(C2)
+            C3[L + '::LayoutHandler.' + fn] = transpose_contract(R, oa, ob, pat, intact)
+            out.append(dict(label='%s %s grid %s' % (fn, nm, pat), struct=None, key=L + '::LayoutHandler.' + fn, contracts=C3))
+    # pairs that differ only where nothing is distributed: in-process transposition
+    local = [((0, 1, 2, 3), (0, 2, 3, 1), '2'), ((3, 2, 1, 0), (0, 2, 1, 3), '12'), ((0, 1, 2), (1, 2, 0), '1'),
+             ((0, 1, 2, 3), (0, 1, 3, 2), '22'), ((0, 1, 2), (0, 2, 1), '2'), ((0, 1), (1, 0), '1'), ((2, 0, 1), (1, 0, 2), '12')]
+    if tier == 'quick':
+        local = local[:3]
+    for (oa, ob, pat) in local:
+        for intact in (False, True):
+            fn = '_transpose_source_intact' if intact else '_transpose'
+            out.append(dict(label='%s local %s->%s grid %s' % (fn, oa, ob, pat), struct=None, key=L + '::LayoutHandler.' + fn,
+                            contracts={L + '::LayoutHandler.' + fn: local_contract(len(oa), list(oa), list(ob), pat, intact)}))
     return out
